@@ -579,6 +579,33 @@ def _borrowed(modname, fname):
 
 
 
+def r15_http_answers_do_not_end_the_connection(ctx):
+    """`the connection keeps serving later messages`: the server's own HTTP answers (also the 400 / -32700 for text that is
+    not JSON) leave connection management to hyper - the response helpers set the content type and nothing else (a
+    `Connection: close` on the error replies ends an HTTP/1.1 keep-alive connection, so the next message on it is never
+    answered)."""
+    F, R = ctx.F, ctx.R
+    tr = ctx.tracer(follow_callers=False, follow_fields=False, inline_calls=False)
+    n = 0
+    for b in F.real_bodies():
+        if b.crate != SERVER or is_test_body(b) or not re.search(r"^jsonrpsee_server::transport::http::", b.path):
+            continue
+        for c in b.calls_to(r"HeaderMap::<.*>::(insert|append|try_insert|try_append)$|response::Builder::header$"):
+            n += 1
+            R.fn(b)
+            names = set()
+            for a in c.args[1:2]:
+                k = op_const(a)
+                if k:
+                    names.add(str(k.get("name") or k.get("str") or ""))
+                for l in tr.origins(b, a):
+                    if l.kind == "const":
+                        names.add(str(l.detail.get("name") or l.detail.get("str") or ""))
+            ok = bool(names) and all(re.search(r"(?i)content[-_]type$", x) for x in names)
+            R.check(ok, "C01.R15", "%s:response-header:%s" % (fkey(b), "+".join(sorted(x.split("::")[-1] for x in names))[:40]), "the HTTP answers set Content-Type only", "%s sets the response header %s on the server's own answers: a `Connection: close` (or any connection-level header) on an error reply makes hyper drop the keep-alive connection, so the message that follows on it is never answered" % (short(b.path), sorted(names)), where(c))
+    R.floor("C01.R15", n, 1, "header writes in transport::http")
+
+
 def rids_wire_ids_derive_both(ctx):
     """`carrying its own id`: the id a reply echoes is the id the message carried only if ids are read and written by the
     derived, mirror-image impls (a hand-written reader that maps -1 to 18446744073709551615 also turns a message that
@@ -731,7 +758,30 @@ def control_hand_driven(ctx):
 CONTROLS = [control_hand_driven]
 
 
-RULES = [r1_id_echo, r1b_handler_args, r2_classify_once, r3_ws_reply_once, r4_invocation_authority, r5_failure_classes, r6_transport_agreement, r7_whole_message, r8_classifiers_are_plain, r9_params_whitespace, r10_not_found_iff_unbound, r11_no_borrowed_wire_strings, r12_entry_points_agree, r13_subscription_kind_is_sent_by_its_creator, r14_every_data_message_reaches_the_task, rids_wire_ids_derive_both] + BORROWED
+LIB_RULES = [r1_id_echo, r1b_handler_args, r2_classify_once, r3_ws_reply_once, r4_invocation_authority, r5_failure_classes, r6_transport_agreement, r7_whole_message, r8_classifiers_are_plain, r9_params_whitespace, r10_not_found_iff_unbound, r11_no_borrowed_wire_strings, r12_entry_points_agree, r13_subscription_kind_is_sent_by_its_creator, r14_every_data_message_reaches_the_task, r15_http_answers_do_not_end_the_connection, rids_wire_ids_derive_both] + BORROWED
+
+
+def rgen_generated_registrations(ctx):
+    """`handler kind {sync, async, blocking, blocking-that-panics}`: what #[rpc(server)] registers is of the declared kind for
+    every combination of attributes (a `blocking, with_extensions` method registered as a plain sync method runs on the
+    connection's task: a panic in it is not turned into -32603 with the call's id - the call gets no reply) (= C17.W5 over
+    the generated corpus)"""
+    from . import c17
+    return c17.w_rules(ctx)
+
+
+def _only(cfgs, rule):
+    def run(ctx):
+        if ctx.config in cfgs:
+            return rule(ctx)
+    run.__name__ = rule.__name__
+    return run
+
+
+CONFIGS_QUICK = ["libs-all", "corpus"]
+CONFIGS_THOROUGH = ["libs-all", "facade-full", "corpus"]
+RULES = [_only(("libs-all", "facade-full"), r) for r in LIB_RULES] + [_only(("corpus",), rgen_generated_registrations)]
+
 
 LEVEL_TEXT = (
     "Structural necessary conditions of the request/reply contract decided from the type-checked program for every "
